@@ -3,7 +3,8 @@
    ser/deser (str(document)+parse, pickle.dumps+pickle.load), the version string and md5 are
    universally quantified; what is assumed about them is stated as hypotheses H1/H2 of the
    theorems (validated for the generated family by the torn-write sweep of harness/c11.py). *)
-From SV Require Import Lib.Base C11.Model C11.Reader C11.NameProofs C11.CacheProofs C11.ReaderProofs.
+From SV Require Import Lib.Base C11.Model C11.Reader C11.NameProofs C11.CacheProofs C11.ReaderProofs
+  C11.Interleave.
 
 Definition format_roundtrips (ser : kind -> N -> bytes) (deser : kind -> bytes -> option N) : Prop :=
   forall k o, deser k (ser k o) = Some o.
@@ -87,6 +88,55 @@ Theorem ids_do_not_alias : forall (md5 : N -> str) (len : nat),
     fname k (mangle (md5 u) x) = fname k' (mangle (md5 u') x') -> k = k' /\ md5 u = md5 u' /\ x = x'.
 Proof. exact ids_do_not_alias_l. Qed.
 Print Assumptions ids_do_not_alias.
+
+(* ------------------------------------------------------------------ *)
+(* concurrent users of one directory                                   *)
+(* ------------------------------------------------------------------ *)
+
+(* For EVERY sequence of truncating opens, whole-entry writes, lookups, removals and clears
+   (hence every interleaving of any number of processes' system calls): a lookup returns nothing
+   or an object some process wrote under that very name before -- provided the format rejects
+   every mixture of entries written over one another (H3).  The in-place, non-atomic write is
+   safe only because of the format. *)
+Theorem interleaved_gets_safe : forall ser1 deser1, format_rejects_mixtures ser1 deser1 ->
+  forall sched,
+  Forall (fun r => match r with
+                   | (n, None, _) => True
+                   | (n, Some o, writes_before) => In (n, o) writes_before
+                   end) (irun ser1 deser1 fs_empty [] sched).
+Proof. intros ser1 deser1 H3 sched. exact (interleaved_gets_safe_l ser1 deser1 sched H3). Qed.
+Print Assumptions interleaved_gets_safe.
+
+(* the hypothesis is needed: with a format that accepts a mixture, two writers and a reader
+   suffice for a lookup to return an object nobody stored, although every entry alone
+   round-trips *)
+Definition ser_bad (o : N) : bytes := match o with 0%N => [1; 1]%N | _ => [2]%N end.
+Definition deser_bad (b : bytes) : option N :=
+  match b with
+  | [1; 1]%N => Some 0%N | [2]%N => Some 1%N | [2; 1]%N => Some 7%N | _ => None
+  end.
+Theorem interleaving_needs_format_refuted :
+  deser_bad (ser_bad 0) = Some 0%N /\ deser_bad (ser_bad 1) = Some 1%N /\
+  irun ser_bad deser_bad fs_empty []
+       [ATrunc [110]%N; ATrunc [110]%N; AWrite [110]%N 0; AWrite [110]%N 1; ARead [110]%N]
+  = [([110]%N, Some 7%N, [([110]%N, 1%N); ([110]%N, 0%N)])].
+Proof. repeat split; vm_compute; reflexivity. Qed.
+Print Assumptions interleaving_needs_format_refuted.
+
+(* and satisfiable: one-byte frames *)
+Theorem mixture_rejecting_format_exists :
+  format_rejects_mixtures (fun o => [o + 1]%N)
+                          (fun b => match b with [a] => if (a =? 0)%N then None else Some (N.pred a) | _ => None end).
+Proof.
+  intros os b o M.
+  assert (S : b = [] \/ exists o', In o' os /\ b = [o' + 1]%N).
+  { induction M as [|o' b' Hin M IH]; [left; reflexivity|]. right. exists o'. split; [exact Hin|].
+    unfold overlay. cbn. destruct IH as [->|[o'' [_ ->]]]; reflexivity. }
+  intro D. destruct S as [->|[o' [Hin ->]]]; [discriminate D|].
+  replace (o' + 1 =? 0)%N with false in D by (symmetry; apply N.eqb_neq; lia).
+  inversion D. replace (N.pred (o' + 1)) with o' by lia. exact Hin.
+Qed.
+Print Assumptions mixture_rejecting_format_exists.
 
 (* ------------------------------------------------------------------ *)
 (* the readers                                                         *)
